@@ -41,6 +41,22 @@ CHECKS = {
          "Machine-checked proof: encodeText_render (the concatenated text is the rendering of a layout tree), text_is_tree (a conforming reader recovers exactly the intended element tree from it, via parseXml_render), tree_roundtrip (parse_value maps that tree back to the value: integers exactly for all widths, tokens, text up to outer white space, DateTime fields via parseDT_print, EUInformation / Range structures, nested lists), decode_encode (end to end), int_text_roundtrip; negative witnesses for the recorded findings (null Boolean, Guid, NodeId, year < 1000). Tie: ~5 000 values per quick run: emitted text compared with the model's string, decode(encode v) evaluated on the real code with lxml, decoded value compared with the model's decodeT on the same infoset, XmlLite compared with lxml on the emitted fragments, CPython codec laws sampled.",
          "Trusted: Lean kernel, CPython float/str, base64, strftime(glibc), dateutil on the printed format (tokens are opaque in the model), lxml, driver, harness. Extension objects / raw XML are compared as trees. Recorded findings D-C08b,c,e,f,g,h,j.",
          "DESIGN.md section 3 C08"),
+ "C05": ("Lean 4 junction theorems composing the stage theorems of C01-C03 and C06-C09 (each about a model tied to /repo) + the real parse -> write -> parse executed on generated multi-namespace graphs",
+         "Machine-checked proof of the junctions: nodeid_junction (printed NodeId read back to the same URI through the document's own table), browse_junction, value_junction (= C08.decode_encode), int_attr_junction / bool_attr_junction, ref_junction (inverse-on-target and forward-on-source both read as (source, target, type)). The end-to-end statement RoundTrip is kept visible and is not proved as one theorem (partial): it is composed from the stage theorems and decided per run by executing the real round trip and comparing nodes, attributes, values, reference triples, namespaces and model metadata.",
+         "Trusted: as C01/C06/C08 plus the harness comparison. Supported domain excludes the recorded findings D-C01a,c, D-C05b,c, D-C06a,b and value classes outside C08's domain.",
+         "DESIGN.md section 3 C05"),
+ "C06": ("Lean 4 theorems about a hand model of write_nodeset / find_namespaces_in_use / reindexing / generate_references_xml / remove_instance_level_outgoing_references + differential correspondence against /repo + an independent NodeSet2 reader",
+         "Machine-checked proof: outgoing_filter_exact, createNodeset_inv, nodes_exact (one element per row of the written namespace, a sub-list of the rows), position_one_is_U (sorted in-use list: index 1 is the written namespace iff 0 is in use — the hypothesis the proof forces, finding D-C06b), refs_placed / placeRef_owner (each reference once, inverse on the target when the target is written, else forward on the source), ids_resolve. Tie: every non-base namespace of generated graphs written with both switch values; the infoset of the real text equals the model's document; an independent reader's view equals the graph's part for U.",
+         "Trusted: Lean kernel, list model of the pandas joins (sibling order not modelled), lxml, the harness reader, generator. Recorded findings D-C06a,b.",
+         "DESIGN.md section 3 C06"),
+ "C07": ("Lean 4 theorems: lexical safety of both escaping functions, every written node element is the rendering of a layout tree that the proved XML reader (XmlLite) reads back exactly; byte-level correspondence of the whole document text against /repo; lxml + the bundled XSD on every generated document",
+         "Machine-checked proof: text_never_breaks_markup, attr_never_breaks_markup (every string), plain_escape_not_attr_safe (witness of the repaired defect), nodeText_render + node_wellformed (parseXml (nodeText n) = the intended tree for every row: any characters in NodeId, names, texts, reference targets, supported values), node_attrs_recovered, first_uri_and_model. Tie: the model's renderDoc text equals the real text byte for byte up to the order of sibling nodes / Reference children; well-formedness, schema validity, first-URI/model and declared indices are decided by lxml and the bundled XSD on every generated document.",
+         "Trusted: Lean kernel; XmlLite as the model of a conforming reader; schema validity is not proved (decided by lxml's XMLSchema per run); document-level reading proved per node element. Recorded finding D-C07e.",
+         "DESIGN.md section 3 C07"),
+ "C10": ("Lean 4 theorems about a hand model of json.dumps(ensure_ascii=False), every json_encode and a strict JSON reader (JsonLite) + differential correspondence against /repo with Python's json as independent reader",
+         "Machine-checked proof: readBody_escBody / readString_quote (quote round trip for every string), readValue_quote, string_valid, bool_valid, int32_valid (str(int) is a JSON number token read back digit for digit), null_is_none; witnesses for D-C10a,b. Partial: object shapes (NodeId, LocalizedText, Variant, lists, extension objects) are decided by the correspondence (emitted text equals the model's) plus the shape/content oracle on the real output with json.loads. Tie: ~2 000 values per quick run, JsonLite vs Python json on emitted and mutated texts.",
+         "Trusted: Lean kernel, CPython str(float) tokens, Python json as oracle, driver, harness. Recorded findings D-C10a..e.",
+         "DESIGN.md section 3 C10"),
 }
 PENDING_REASON = "check not built yet in this session; planned as a Lean model + correspondence check (DESIGN.md section 3)"
 
